@@ -88,6 +88,32 @@ def _pairwise_eq_keys(lit: T) -> Optional[str]:
     return pe[0].args[1]
 
 
+def _equal_size_lists(c: T) -> bool:
+    """c == all(a == b for a, b in zip(L, L[1:])) with L = the per-result
+    lists of array sizes"""
+    if not (is_call_to(c, "builtins.all") and c.args[1] and
+            c.args[1][0].op == "comp"):
+        return False
+    comp = c.args[1][0]
+    if comp.args[3] or len(comp.args[2]) != 1:
+        return False
+    it, lid = comp.args[2][0]
+    elt = comp.args[1]
+    if not (is_call_to(it, "builtins.zip") and len(it.args[1]) == 2 and
+            it.args[1][1] is tm.sub(it.args[1][0], T(
+                "slice", const(1), tm.NONE, tm.NONE)) and
+            elt.op == "cmp" and elt.args[0] == "Eq"):
+        return False
+    A, B = it.args[1]
+    if {elt.args[1], elt.args[2]} != {T("elem", A, lid), T("elem", B, lid)}:
+        return False
+    pe = per_element(A)
+    return pe is not None and not pe[3] and pe[2] is RES and any(
+        t.op == "attr" and t.args[1] == "size" for t in pe[0].walk()) and \
+        any(t.op == "attr" and t.args[1] == "np_arrays"
+            for t in pe[0].walk())
+
+
 def check(ctx):
     prog = ctx.prog
     f = prog.func(MR)
@@ -198,77 +224,84 @@ def check(ctx):
            f"statistics average is {fmt(v_)} — the divisor must be the "
            f"number of input results", key="C13.4:stats-divisor",
            value=fmt(v_))
-    items = r.of_kind("setitem")
-    adds = [e for e in items if is_call_to(e.data["value"], "numpy.add")]
-    apps = [e for e in items if is_call_to(e.data["value"], "numpy.append")]
-    divs = [e for e in items if is_call_to(e.data["value"], "numpy.divide")
-            or (e.data["value"].op == "binop" and
-                e.data["value"].args[0] == "Div")]
-    ctx.require(bool(adds) and bool(apps) and bool(divs),
-                "merge_results: array add / append / divide not found "
-                "(unknown idiom)")
-    strat_avg = [a for e in adds for a in tm.atoms(e.live)
-                 if a.op == "cmp" and tm.is_const(a.args[2], "average")]
-    ctx.require(bool(strat_avg), "merge strategy test not found")
-    strat = strat_avg[0].args[1]
-
-    def operands(e):
-        v = e.data["value"]
-        return v.args[1] if v.op == "call" else (v.args[1], v.args[2])
+    # the strategy decision: all per-result array-size lists are equal
+    eqs = []
+    seen = set()
+    for e in r.events:
+        pool = list(tm.atoms(e.live))
+        for k in ("value", "result"):
+            v = e.data.get(k)
+            if isinstance(v, T):
+                pool.extend(a_ for x in v.walk() if x.op == "ite"
+                            for a_ in tm.atoms(x.args[0]))
+        for a_ in pool:
+            if id(a_) in seen:
+                continue
+            seen.add(id(a_))
+            if _equal_size_lists(a_):
+                eqs.append(a_)
+    ctx.require(len(eqs) >= 1, "merge_results: no decision on "
+                "all(a == b for a, b in zip(size_lists, size_lists[1:])) "
+                "found (unknown merge-strategy idiom)")
+    EQ = eqs[0]
+    ctx.ob("C13.4", f, True,
+           "the merge strategy is decided by whether all per-result "
+           "array-size lists are equal", key="C13.4:strategy")
     other = T("elem", REST, loop_res.data["lid"]) if loop_res else None
-    for e, nm in ((adds[0], "add"), (apps[0], "append")):
-        a, b = operands(e)[:2]
-        ok = a.op == "sub" and tm.is_const(a.args[1], 1) and \
-            a.args[0].op == "elem" and b.op == "sub" and \
-            b.args[0] is tm.attr(other, "np_arrays") and \
-            b.args[1] is tm.sub(a.args[0], const(0)) and \
-            e.data["index"] is tm.sub(a.args[0], const(0))
-        ctx.ob("C13.4", e, ok,
-               f"arrays: merged[k] = np.{nm}(merged[k], next.np_arrays[k]) "
-               f"(accumulated first, next second)" if ok else
-               f"arrays: np.{nm} operands are ({fmt(a)}, {fmt(b)}) — "
-               f"expected (accumulated array, next result's array of the "
+
+    def operands(v):
+        return v.args[1] if v.op == "call" else (v.args[1], v.args[2])
+    for equal in (True, False):
+        rc = Interp(prog, assume=lambda t, v=equal: v if t is EQ
+                    else None).run(f)
+        ctx.analysed["configs"] += 1
+        mode = "equal sizes" if equal else "different sizes"
+        items = [e for e in rc.of_kind("setitem")
+                 if not tm.is_const(e.live, False) and any(
+                     x.op == "attr" and x.args[1] == "np_arrays"
+                     for x in e.data["base"].walk())]
+        lid = loop_res.data["lid"] if loop_res else -1
+        acc = [e for e in items if lid in e.loops]
+        fin = [e for e in items if lid not in e.loops]
+        want = "numpy.add" if equal else "numpy.append"
+        ok = len(acc) == 1 and is_call_to(acc[0].data["value"], want)
+        if ok:
+            e = acc[0]
+            a, b_ = operands(e.data["value"])[:2]
+            ok = a.op == "sub" and tm.is_const(a.args[1], 1) and \
+                a.args[0].op == "elem" and b_.op == "sub" and \
+                b_.args[0] is tm.attr(other, "np_arrays") and \
+                b_.args[1] is tm.sub(a.args[0], const(0)) and \
+                e.data["index"] is tm.sub(a.args[0], const(0))
+        nm = want.split(".")[1]
+        ctx.ob("C13.4", acc[0] if acc else f, ok,
+               f"[{mode}] arrays: merged[k] = np.{nm}(merged[k], "
+               f"next.np_arrays[k]) (accumulated first, next second)" if ok
+               else f"[{mode}] arrays are accumulated as "
+               f"{[fmt(e.data['value']) for e in acc]} — expected "
+               f"np.{nm}(accumulated array, next result's array of the "
                f"same key)", key=f"C13.4:array-{nm}")
-    e = divs[-1]
-    a, b = operands(e)[:2]
-    ok = b is LEN and not e.loops or (b is LEN and all(
-        l != (loop_res.data["lid"] if loop_res else -1) for l in e.loops))
-    only_avg = tm.fold(e.live, lambda t: False if t is strat_avg[0]
-                       else None) is False
-    ctx.ob("C13.4", e, ok and only_avg,
-           "arrays are divided by len(results), only in the averaging "
-           "strategy" if ok and only_avg else
-           f"array average divides by {fmt(b)} / not restricted to the "
-           f"averaging strategy", key="C13.4:array-divisor")
-    # strategy: append iff the per-result array-size lists are not all equal
-    oks = False
-    if strat.op == "ite":
-        c, x, y = strat.args
-        neg = c.op == "not"
-        cc = c.args[0] if neg else c
-        if is_call_to(cc, "builtins.all") and cc.args[1] and \
-                cc.args[1][0].op == "comp":
-            comp = cc.args[1][0]
-            (it, lid), = comp.args[2]
-            elt = comp.args[1]
-            if is_call_to(it, "builtins.zip") and len(it.args[1]) == 2 and \
-                    it.args[1][1] is tm.sub(it.args[1][0], T(
-                        "slice", const(1), tm.NONE, tm.NONE)) and \
-                    elt.op == "cmp" and elt.args[0] == "Eq":
-                L = it.args[1][0]
-                pe = per_element(L)
-                sizes = pe is not None and pe[2] is RES and any(
-                    t.op == "attr" and t.args[1] == "size"
-                    for t in pe[0].walk()) and any(
-                    t.op == "attr" and t.args[1] == "np_arrays"
-                    for t in pe[0].walk())
-                vals = (x, y) if neg else (y, x)
-                oks = bool(sizes) and tm.is_const(vals[0], "append") and \
-                    tm.is_const(vals[1], "average")
-    ctx.ob("C13.4", f, oks,
-           "strategy = average iff all per-result array-size lists are "
-           "equal, else append" if oks else
-           f"merge strategy is {fmt(strat)}", key="C13.4:strategy")
+        if equal:
+            ok = len(fin) == 1
+            if ok:
+                v = fin[0].data["value"]
+                ok = (is_call_to(v, "numpy.divide") or
+                      (v.op == "binop" and v.args[0] == "Div")) and \
+                    operands(v)[1] is LEN and \
+                    fin[0].idx > max(e.idx for e in acc)
+            ctx.ob("C13.4", fin[0] if fin else f, ok,
+                   "[equal sizes] summed arrays are divided by "
+                   "len(results) after the accumulation" if ok else
+                   f"[equal sizes] array average is "
+                   f"{[fmt(e.data['value']) for e in fin]} — expected "
+                   f"sum / len(results)", key="C13.4:array-divisor")
+        else:
+            ctx.ob("C13.4", fin[0] if fin else f, not fin,
+                   "[different sizes] appended arrays are not divided"
+                   if not fin else
+                   f"[different sizes] appended arrays are rescaled: "
+                   f"{fmt(fin[0].data['value'])}",
+                   key="C13.4:append-not-divided")
     # --------------------------------------------------------------- C13.5
     info_w = [e for e in r.events if
               (e.kind == "setattr" and e.data["name"] == "info") or
